@@ -65,24 +65,49 @@ theorem retBool_false {b : Bool} (h : retBool b = "ret false") : b = false := by
 
 /-! ### reads and iterator positions -/
 
-/-- findPath's caller `Seek` / `Next` installs `preds[0]`, `succs[0]` as the iterator's positions -/
+/-- the end of Next (count, refresh test) does not move the cursor -/
+theorem afterNext_pos (sh : Shared) (th : Thread) (it : Nat) :
+    ((afterNext sh th it).2.1.iter it).prev = (th.iter it).prev ∧
+    ((afterNext sh th it).2.1.iter it).curr = (th.iter it).curr := by
+  unfold afterNext
+  simp only []
+  split
+  · split
+    · rw [iter_eq_of_iters (th' := { th.setIter it _ with pc := _ }) (l := th.iters) rfl]; exact ⟨rfl, rfl⟩
+    · rw [iter_eq_of_iters (th' := { th.setIter it _ with pc := _ }) (l := th.iters) rfl]; exact ⟨rfl, rfl⟩
+  · rw [iter_eq_of_iters (th' := { th.setIter it _ with pc := _ }) (l := th.iters) rfl]; exact ⟨rfl, rfl⟩
+
+theorem moveIter_pos (th : Thread) (it p c : Nat) (pc : PC) :
+    (({ th.moveIter it p c with pc := pc } : Thread).iter it).prev = p ∧
+    (({ th.moveIter it p c with pc := pc } : Thread).iter it).curr = c := by
+  have : ({ th.moveIter it p c with pc := pc } : Thread).iter it = (th.moveIter it p c).iter it := rfl
+  rw [this, moveIter_iter]; exact ⟨rfl, rfl⟩
+
+/-- findPath's caller `Seek` / `Next` / `Refresh` installs `preds[0]`, `succs[0]` as the iterator's positions -/
 theorem finishFind_iter (sh : Shared) (th : Thread) (item : Nat) (found : Bool) (it : Nat) (c : Cont)
-    (hc : c = .iterSeek it ∨ c = .iterNext it) :
-    (finishFind sh th item found c).2.1.iter it = { prev := th.pred 0, curr := th.succ 0, valid := true } := by
-  rcases hc with rfl | rfl
+    (hc : c = .iterSeek it ∨ c = .iterNext it ∨ c = .iterRefresh it) :
+    ((finishFind sh th item found c).2.1.iter it).prev = th.pred 0 ∧
+    ((finishFind sh th item found c).2.1.iter it).curr = th.succ 0 := by
+  rcases hc with rfl | rfl | rfl
   · simp only [finishFind]
-    exact iter_eq_of_iters (l := th.iters) rfl
+    exact moveIter_pos ..
   · simp only [finishFind]
     split
-    · exact iter_eq_of_iters (l := th.iters) rfl
-    · exact iter_eq_of_iters (l := th.iters) rfl
+    · exact moveIter_pos ..
+    · have h1 := afterNext_pos sh (th.moveIter it (th.pred 0) (th.succ 0)) it
+      rw [moveIter_iter] at h1
+      exact h1
+  · simp only [finishFind]
+    exact moveIter_pos ..
 
 theorem afterRead_iter {sh : Shared} {th : Thread} (fp : FP) (next : Nat) (deleted : Bool) (it : Nat)
-    (hb : BufOK sh.heap th.preds th.succs) (hc : fp.cont = .iterSeek it ∨ fp.cont = .iterNext it)
+    (hb : BufOK sh.heap th.preds th.succs)
+    (hc : fp.cont = .iterSeek it ∨ fp.cont = .iterNext it ∨ fp.cont = .iterRefresh it)
     (hret : (afterRead sh th fp next deleted).2.2 ≠ "at HELP_DELETE" ∧
             (afterRead sh th fp next deleted).2.2 ≠ "at FIND_NEXT" ∧
             (afterRead sh th fp next deleted).2.2 ≠ "at FIND_LEVEL") :
-    (afterRead sh th fp next deleted).2.1.iter it = { prev := fp.prev, curr := fp.curr, valid := true } ∧
+    (((afterRead sh th fp next deleted).2.1.iter it).prev = fp.prev ∧
+     ((afterRead sh th fp next deleted).2.1.iter it).curr = fp.curr) ∧
     ¬ Gen.findAdvance (compare (keyOf sh.heap fp.curr) (.fin fp.item)) = true := by
   unfold afterRead at hret ⊢
   by_cases hd : deleted = true
@@ -96,9 +121,11 @@ theorem afterRead_iter {sh : Shared} {th : Thread} (fp : FP) (next : Nat) (delet
       cases hi : fp.i with
       | succ i => rw [hi] at hret; simp at hret
       | zero =>
-        rw [finishFind_iter _ _ _ _ it _ hc]
-        simp only [Thread.pred, Thread.succ]
-        rw [getD_set_self hb.1, getD_set_self hb.2.1]
+        have := finishFind_iter sh { th with preds := th.preds.set 0 fp.prev, succs := th.succs.set 0 fp.curr }
+          fp.item (Gen.findFound (compare (keyOf sh.heap fp.curr) (Key.fin fp.item))) it _ hc
+        simp only [Thread.pred, Thread.succ] at this
+        rw [getD_set_self hb.1, getD_set_self hb.2.1] at this
+        exact this
 
 /-- outcome of findPath's last read: a `found` answer was taken from a node that is, in this very state, in the
     abstract set and carries the item -/
